@@ -3,6 +3,7 @@
 pub mod c13;
 pub mod c13_bind;
 pub mod c14;
+pub mod lutmodel;
 
 use pvc_engine::{Run, load_replay, parse_args};
 
